@@ -266,7 +266,7 @@ func vBuildOf(tn string, opts *RunOptions) vBuildResult {
 		for _, b := range vBroken {
 			broken = broken || b
 		}
-		vAssert(len(vFail) > 0 || broken, "a build failed although no body fails")
+		vAssert(len(vFail) > 0 || broken || len(vFaulted) > 0, "a build failed although no body fails")
 	}
 	return res
 }
@@ -435,7 +435,7 @@ func vCheckEvents(res vBuildResult) {
 	for _, l := range order {
 		seq := per[l]
 		name := vNameOf(l)
-		body := 0
+		body, prints := 0, 0
 		var prot []string
 		for _, k := range seq {
 			if k == "body" {
@@ -446,6 +446,7 @@ func vCheckEvents(res vBuildResult) {
 			}
 			if k == "print" {
 				vAssert(len(prot) == 1 && prot[0] == "evaluating", "C18: output delivered outside evaluating..completion")
+				prints++
 				continue
 			}
 			prot = append(prot, k)
@@ -462,6 +463,8 @@ func vCheckEvents(res vBuildResult) {
 			ok = prot[0] == "evaluating" && (prot[1] == "succeeded" || prot[1] == "failed")
 		}
 		vAssert(ok, "C18: a target's events are not one of the allowed sequences")
+		// every body writes one unterminated line: it is delivered exactly once per execution
+		vAssert(prints == body, "C18: a body's output was not delivered exactly once before its completion")
 		evaluating := len(prot) >= 1 && prot[0] == "evaluating"
 		if _, isFn := vBodies[name]; isFn && l == vLabelOf(vSpec(name)) {
 			if dry {
@@ -470,7 +473,7 @@ func vCheckEvents(res vBuildResult) {
 				vAssert((body == 1) == evaluating && body <= 1, "C18: evaluating is not reported exactly when the body runs")
 			}
 			if len(prot) == 2 && !dry {
-				vAssert((prot[1] == "failed") == vFail[name], "C18: completion event does not match the body's outcome")
+				vAssert((prot[1] == "failed") == (vFail[name] || vFaulted[name]), "C18: completion event does not match the body's outcome")
 			}
 		}
 	}
@@ -577,6 +580,34 @@ func vDependsOnAlways(name string) bool {
 		}
 	}
 	return false
+}
+
+// VHarnessSaveFault: a symbolic history, then a build during which one (solver-chosen) creation of a
+// record's temp file fails after the load — a target's record cannot be saved although its body ran.
+// The target's events must still be one allowed sequence with exactly one completion, the failure is
+// reported (failed, run-done with the error), and a later build without faults is correct (C01).
+func VHarnessSaveFault() {
+	vSetup()
+	names := vFunctionNames()
+	top := names[len(names)-1]
+	if vParam("first") == 1 {
+		vBuildOf(top, nil)
+	}
+	vSteps()
+	vFail = map[string]bool{}
+	vFaultAt = vChoose("save-fault-at", 2*len(names))
+	vFaultSeen = 0
+	r := vBuildOf(top, &RunOptions{Always: vAllowAlways && vNondetBool("always")})
+	if len(vFaulted) > 0 {
+		vReach("faulted-build-checked")
+	}
+	_ = r
+	vFaultAt = -1
+	vFaulted = map[string]bool{}
+	vBroken = map[string]bool{}
+	r = vBuildOf(top, nil)
+	vAssert(r.buildErr == nil, "a build without failing bodies fails")
+	vReach("history-done")
 }
 
 // VHarnessHistoryTwin: reachability twin.
